@@ -15,8 +15,8 @@ import (
 type ProxyOpts struct {
 	ClientThreshold     int      // compression threshold towards clients (-1: off)
 	Try                 []string // try list (fallback order)
-	ConnectionTimeoutMs int      // backend connect/login timeout; 0: 5000
-	ReadTimeoutMs       int      // read timeout; 0: 30000
+	ConnectionTimeoutMs int      // effective backend connect/login (and write) timeout; 0: gate's default
+	ReadTimeoutMs       int      // effective read timeout; 0: gate's default
 	NoFailover          bool     // FailoverOnUnexpectedServerDisconnect = false
 	Events              event.Manager
 }
@@ -55,11 +55,14 @@ func StartProxy(o ProxyOpts) (*Proxy, error) {
 	cfg.AnnounceProxyCommands = false
 	cfg.ForceKeyAuthentication = false
 	cfg.FailoverOnUnexpectedServerDisconnect = !o.NoFailover
+	// gate computes time.Duration(cfg.ConnectionTimeout)*time.Millisecond, i.e. it reads the raw
+	// number as milliseconds (the 5 s default therefore means 5e9 ms); store the raw number so that
+	// the effective timeout is the requested one.
 	if o.ConnectionTimeoutMs > 0 {
-		cfg.ConnectionTimeout = configutil.Duration(time.Duration(o.ConnectionTimeoutMs) * time.Millisecond)
+		cfg.ConnectionTimeout = configutil.Duration(o.ConnectionTimeoutMs)
 	}
 	if o.ReadTimeoutMs > 0 {
-		cfg.ReadTimeout = configutil.Duration(time.Duration(o.ReadTimeoutMs) * time.Millisecond)
+		cfg.ReadTimeout = configutil.Duration(o.ReadTimeoutMs)
 	}
 	ev := o.Events
 	if ev == nil {
